@@ -64,6 +64,21 @@ def gen_cases_for(seed_, n):
             keys = rng.sample(["sender", "recipient", "owner", "agent", "courier"], rng.choice([2, 3, 4]))
             samples = [{k: v} for k, v in zip(keys, parts)]
             opts["merge"] = rng.choice([[["percent", 0.7], ["number", 10]], [["exact"]], [["percent", 0.5]], [["number", 2]]])
+        if i % 20 == 17:
+            # a similarity chain of 5-8 nested models (neighbours share 7 of 9 keys, all others at most 6 of 10) whose members are spread
+            # over the samples, both ends in one sample: the merge groups met first are joined only by members registered later
+            L, W = rng.randint(5, 8), 8
+            objs = {f"c{j}": {f"k{x}": rng.choice([1, 2]) for x in range(j, j + W)} for j in range(L)}
+            ns = rng.choice([2, 2, 3])
+            where = {j: rng.randrange(ns) for j in range(L)}
+            where[0] = where[L - 1] = 0
+            for j in range(1, L - 1):
+                if rng.random() < 0.7:
+                    where[j] = rng.randrange(1, ns)
+            samples = [{f"c{j}": objs[f"c{j}"] for j in range(L) if where[j] == sx} for sx in range(ns)]
+            samples = [smp for smp in samples if smp]
+            opts["merge"] = rng.choice([[["percent", 0.7]], [["percent", 0.7]], [["percent", 0.75]], [["number", 7]]])
+            opts["dkr"], opts["dkf"] = [], []
         cases.append({"i": i, "models": [["Root", samples]], "opts": opts, "vseed": rng.randrange(1 << 30)})
     return cases
 
